@@ -230,8 +230,7 @@ def generate(workdir, tier, rng):
 def run(prop, tier):
     t0 = time.time()
     rng = random.Random(vf.seed())
-    workdir = os.path.join(vf.OUT, prop, tier)
-    os.makedirs(workdir, exist_ok=True)
+    workdir = vf.fresh_workdir(prop, tier)
     binary = vf.build_harness()
     scen, states, trans, notes, n_small = generate(workdir, tier, rng)
     vf.log("; ".join(notes))
